@@ -54,6 +54,13 @@ type NodeSpec struct {
 	// Fail = 1 + kind code of the critical section of this node whose user function returns an
 	// error after it has updated the state (0 = none): 1 pre-handler, 2 post-handler, 3+j body j
 	Fail int `json:"fail,omitempty"`
+	// FailPanic: the user function of the section designated by Fail panics (after it has updated
+	// the state) instead of returning an error. eino contains the panic of a ProcessState callback
+	// (the lambda's executor recovers) and of a handler of a nested graph (the enclosing node's
+	// executor recovers): the run fails with an error; the panic of a handler of the top graph reaches
+	// the caller (recovered by the harness). Either way the run has failed and the lock must have been
+	// released by the time the panic has left the wrapper (the nodes left behind still get the state)
+	FailPanic bool `json:"fail_panic,omitempty"`
 	// Rerun = 1 + k: the first execution of this lambda performs k of its ProcessState calls and
 	// then returns compose.InterruptAndRerun (0 = never); after the resume the node is executed
 	// again from scratch - pre-handler included - with the zero value as input. For the model the
@@ -808,6 +815,25 @@ func processStateTy(h *rec, ctx context.Context, ty, id, kc int, x *[]KV, fail e
 
 var errInjected = errors.New("c11: injected handler failure")
 
+// errInjectedPanic as the failure of a section: its user function panics with this value
+var errInjectedPanic = errors.New("c11: injected handler panic")
+
+// failOf: what the user function of the failing section of n does after its update
+func failOf(n NodeSpec) error {
+	if n.FailPanic {
+		return errInjectedPanic
+	}
+	return errInjected
+}
+
+// raise panics if the failure of the section is a panic
+func raise(fail error) error {
+	if fail == errInjectedPanic {
+		panic(fail)
+	}
+	return fail
+}
+
 func handlerOpts[S any](h *rec, n NodeSpec, pre bool) compose.GraphAddNodeOpt {
 	id := n.ID
 	kc := kPost
@@ -817,7 +843,7 @@ func handlerOpts[S any](h *rec, n NodeSpec, pre bool) compose.GraphAddNodeOpt {
 	}
 	var fail error
 	if n.Fail == kc+1 {
-		fail = errInjected
+		fail = failOf(n)
 	}
 	if stream {
 		f := func(ctx context.Context, in *schema.StreamReader[M], s S) (*schema.StreamReader[M], error) {
@@ -825,7 +851,8 @@ func handlerOpts[S any](h *rec, n NodeSpec, pre bool) compose.GraphAddNodeOpt {
 			if err != nil {
 				return nil, err
 			}
-			return schema.StreamReaderFromArray([]M{toMH(h.cs(ctx, id, kc, fromM(m), asSt(s), isSt2(s)))}), fail
+			out := toMH(h.cs(ctx, id, kc, fromM(m), asSt(s), isSt2(s)))
+			return schema.StreamReaderFromArray([]M{out}), raise(fail)
 		}
 		if pre {
 			return compose.WithStreamStatePreHandler(f)
@@ -833,7 +860,8 @@ func handlerOpts[S any](h *rec, n NodeSpec, pre bool) compose.GraphAddNodeOpt {
 		return compose.WithStreamStatePostHandler(f)
 	}
 	f := func(ctx context.Context, in M, s S) (M, error) {
-		return toMH(h.cs(ctx, id, kc, fromM(in), asSt(s), isSt2(s))), fail
+		out := toMH(h.cs(ctx, id, kc, fromM(in), asSt(s), isSt2(s)))
+		return out, raise(fail)
 	}
 	if pre {
 		return compose.WithStatePreHandler(f)
@@ -848,6 +876,16 @@ func (c *Case) visibleTy(gi int) int {
 		return c.Forest[o].STy
 	}
 	return 0
+}
+
+// the panicking user function is a handler of the top graph
+func (c *Case) topHandlerPanics() bool {
+	for _, n := range c.Forest[0].Nodes {
+		if n.FailPanic && c.failApplies(n) && (n.Fail == kPre+1 || n.Fail == kPost+1) {
+			return true
+		}
+	}
+	return false
 }
 
 // the section designated by n.Fail exists in the program
@@ -885,12 +923,12 @@ func (h *rec) nodeOpts(c *Case, gi int, n NodeSpec) []compose.GraphAddNodeOpt {
 func processState[S any](h *rec, ctx context.Context, id, kc int, x *[]KV, fail error) error {
 	return compose.ProcessState[S](ctx, func(ctx context.Context, s S) error {
 		*x = h.cs(ctx, id, kc, *x, asSt(s), isSt2(s))
-		return fail
+		return raise(fail)
 	})
 }
 
 func (h *rec) lambda(n NodeSpec, psTy int) *compose.Lambda {
-	id, ps, delay, failKC, rerun := n.ID, n.PS, n.DelayUs, n.Fail, n.Rerun
+	id, ps, delay, failKC, rerun, failWith := n.ID, n.PS, n.DelayUs, n.Fail, n.Rerun, failOf(n)
 	return compose.InvokableLambda(func(ctx context.Context, in M) (M, error) {
 		atomic.AddInt64(&h.active, 1)
 		defer atomic.AddInt64(&h.active, -1)
@@ -910,7 +948,7 @@ func (h *rec) lambda(n NodeSpec, psTy int) *compose.Lambda {
 			}
 			var err, fail error
 			if failKC == kBody+j+1 {
-				fail = errInjected
+				fail = failWith
 			}
 			err = processStateTy(h, ctx, psTy, id, kBody+j, &x, fail)
 			if err != nil {
@@ -1097,6 +1135,9 @@ type Obs struct {
 	Gens      int64     `json:"gens"`
 	Overlap   bool      `json:"overlap"`
 	LockSplit bool      `json:"lock_split,omitempty"` // a probe callback entered during another section on the same state
+	// Stuck: a lambda of a failed run was still in flight (waiting for the state lock) 15 s after the run
+	// had returned, without any critical section completing meanwhile; nothing else is reported then
+	Stuck bool `json:"stuck,omitempty"`
 	IntSeen   bool      `json:"interrupted,omitempty"`
 	ModRuns   []int     `json:"mod_runs,omitempty"` // runs (final indices) resumed with a state modifier
 }
@@ -1150,7 +1191,26 @@ func (c *Case) infoSnaps(info *compose.InterruptInfo, gi int, out *[]SnapState, 
 	}
 }
 
-func (h *rec) call(c *Case, r compose.Runnable[M, M], ctx context.Context, opts ...compose.Option) (M, error) {
+// call: one call of the compiled graph through the entry of the case. Where the case makes a handler
+// of the TOP graph panic (it runs on the caller's goroutine, nothing in eino contains it), the panic
+// that reaches the caller is the failure of that call: it is recovered here and handed on as an
+// error, so that the bookkeeping around the call (resume markers) stays complete. In every other case
+// a panic goes on to the oracle (a panicking ProcessState callback or handler of a nested graph is
+// contained by the executor of the node).
+func (h *rec) call(c *Case, r compose.Runnable[M, M], ctx context.Context, opts ...compose.Option) (out M, err error) {
+	if c.topHandlerPanics() {
+		defer func() {
+			// (any panic value: in the stream paradigm the deferred end-of-graph callback of runner.run
+			// replaces the handler's panic by one of its own - not C11's subject)
+			if p := recover(); p != nil {
+				out, err = nil, fmt.Errorf("the call was left by a panic (%v): %w", p, errInjectedPanic)
+			}
+		}()
+	}
+	return h.call1(c, r, ctx, opts...)
+}
+
+func (h *rec) call1(c *Case, r compose.Runnable[M, M], ctx context.Context, opts ...compose.Option) (M, error) {
 	in := M{vkey(0): c.X0}
 	switch c.callKind() {
 	case "stream":
@@ -1374,6 +1434,26 @@ func (c *Case) execute() (o Obs, hang bool) {
 			time.Sleep(15 * time.Millisecond)
 			if atomic.LoadInt64(&h.active) == 0 && atomic.LoadInt64(&h.seq) == s0 {
 				break
+			}
+		}
+		// Still inside a lambda after 3 s: either the machine is very slow, or a node the failed run
+		// left behind waits for a state lock that is never released (the failing user function left
+		// its wrapper by a panic or an error and the wrapper did not unlock). Not decided by slowness:
+		// the lambdas of a case need milliseconds; the alarm is raised only if for 12 more seconds
+		// some lambda stays in flight AND not a single critical section completes anywhere.
+		if atomic.LoadInt64(&h.active) != 0 {
+			quiet := time.Now()
+			s0 := atomic.LoadInt64(&h.seq)
+			limit := time.Now().Add(12 * time.Second)
+			for time.Now().Before(limit) && atomic.LoadInt64(&h.active) != 0 {
+				time.Sleep(50 * time.Millisecond)
+				if s1 := atomic.LoadInt64(&h.seq); s1 != s0 {
+					s0, quiet = s1, time.Now()
+					limit = quiet.Add(12 * time.Second)
+				}
+			}
+			if atomic.LoadInt64(&h.active) != 0 && time.Since(quiet) >= 12*time.Second {
+				return Obs{Results: results, Stuck: true}, false
 			}
 		}
 	}
@@ -1672,6 +1752,10 @@ func (e engine) Run(ci any) lib.Result {
 		res.Oracle, res.Sig = "run did not return within 20s", "hang"
 		return res
 	}
+	if o.Stuck {
+		res.Oracle, res.Sig = "a node left behind by a failed run never got the state lock: it was still waiting 15 s after the run had returned while no critical section was in progress or completed (a user function that failed - error or panic - left its wrapper without releasing the lock)", "stuck"
+		return res
+	}
 	cu := c.unroll()
 	res.Oracle, res.Sig = cu.oracle(&o)
 	res.CoqTerm = cu.coqTerm(&o)
@@ -1806,7 +1890,11 @@ func (c *Case) tags(o *Obs) []string {
 	for _, g := range c.Forest {
 		for _, n := range g.Nodes {
 			if c.failApplies(n) {
-				t = append(t, fmt.Sprintf("handler-error:%s", map[bool]string{true: "body", false: map[int]string{1: "pre", 2: "post"}[n.Fail]}[n.Fail > 2]))
+				what := "handler-error"
+				if n.FailPanic {
+					what = "handler-panic"
+				}
+				t = append(t, fmt.Sprintf("%s:%s", what, map[bool]string{true: "body", false: map[int]string{1: "pre", 2: "post"}[n.Fail]}[n.Fail > 2]))
 			}
 		}
 	}
@@ -1866,6 +1954,8 @@ func (c *Case) oracle(o *Obs) (string, string) {
 		return "AddNode / Compile accepted a state handler on a graph that declares no state of the handler's type", "build-accepted"
 	}
 	for _, r := range o.Results {
+		// (the injected panic of a handler of the top graph, which runs on the caller's goroutine, is
+		// recovered in rec.call: class err)
 		if r.Class == "panic" {
 			return "panic escaped from a run: " + r.Msg, "panic"
 		}
